@@ -29,3 +29,11 @@ claim('C02', 'sparse conditional constant propagation with a known-bits (per-bit
 claim('C03', 'constant folding of dominating comparison bounds; must-pass-edge CFG queries; cross-table agreement (export slots vs macros of both headers, names and function types); folding of the sizeof/signedness dispatch on the clang AST of generated wrappers',
       'Decides that each of the eight API-mode converters accepts exactly the N-bit range (bounds recovered from the facts dominating `return tmp`), the _Bool converter exactly {0,1}; that every integer store through `data` in convert_from_object is reachable only past the round-trip comparison of matching signedness (or the _Bool test) whose firing side raises OverflowError and stores nothing; strict-flag literals per caller; slot-by-slot agreement of cffi_exports[] with _cffi_include.h and the verify() header; that _cffi_to_c_int/_cffi_from_c_int fold to the converter of the argument type for every generated wrapper argument of the probe corpus, each followed by the error test; and that the callback result widening is dominated by the range check. Finite and exhaustive over converters, slots and type names.',
       'Does not decide that read-back returns v (memcpy semantics assumed), nor stores through dlsym-ed global addresses separately; generated code is checked for the probe corpus (all standard and stdint integer types).')
+
+claim('C18', 'type-resolved selector/reader table comparison inside one function (dominating facts of each casenum assignment vs. the case body), CFG must-follow for the cursor',
+      'Decides, for all twelve fast-path numbers of b_unpack, that the selector (flag branch + itemsize == sizeof(X)) and the reader (*(Y *)src + CPython constructor) agree in size and signedness, that the constructor parameter can hold every Y (including the ordering argument for unsigned int), that numeric fast paths are only chosen under the alignment test, that _Bool bytes other than 0/1 and the default go through convert_to_object, that the pointer fast path is the call convert_to_object makes, and that every iteration advances the cursor by itemsize. The table is finite and enumerated completely.',
+      'Does not decide equality of the produced Python objects beyond type agreement; LP64 sizes.')
+
+claim('C17', 'sibling-function agreement on the clang AST/CFG (classification mask folded, operator table, delegation arguments)',
+      'Decides that cdata_richcompare and cdata_hash split on the same folded ct_flags mask, that the address class compares v->c_data with w->c_data using the C operator matching each of the six Py_LT..Py_GE constants and hashes the pointer of the same field, that the primitive class converts through convert_to_object(x->c_data, x->c_type) and delegates to PyObject_RichCompare with unchanged operands/op and to PyObject_Hash, and that mixed pairs return NotImplemented.',
+      'Relies on CPython\'s own consistency of == and hash for numbers/bytes/str; values of Py_LT..Py_GE as in object.h.')
